@@ -351,7 +351,10 @@ vf::Blk* do_alloc(State& S, int force_ep, size_t force_size) {
       if (ep == EP_heap_strdup || ep == EP_heap_strndup) { hi = pick_heap(S); h = S.heaps[hi].h; }
       if (ep == EP_strdup) p = mi_strdup(src);
       else if (ep == EP_heap_strdup) p = mi_heap_strdup(h, src);
-      else { m = (chance(S, 1, 2) ? (size_t)below(S, L + 1) : L + (size_t)below(S, 16)); size_t eff = (m < L ? m : L);
+      else { m = (chance(S, 1, 2) ? (size_t)below(S, L + 1) : L + (size_t)below(S, 16));
+             // limits far beyond the string (a limit is not a size: SIZE_MAX is a legal "no limit"); added for seeded change C01-r7-3
+             if (chance(S, 1, 6)) { static const size_t far[] = { SIZE_MAX, SIZE_MAX - 1, SIZE_MAX - 7, SIZE_MAX / 2, SIZE_MAX / 2 + 1, (size_t)1 << 32, (size_t)1 << 48 }; m = far[below(S, 7)]; }
+             size_t eff = (m < L ? m : L);
              p = (ep == EP_strndup ? mi_strndup(src, m) : mi_heap_strndup(h, src, m)); m = eff; }
       n = m + 1;
       if (p != nullptr) {
